@@ -127,7 +127,7 @@ func c13Prepare(T *tr.Trace, cs c13Case) *tr.Run {
 	uid := T.NumRuns() + 1
 	r := T.NewRun(mode+"/"+cs.Filter, map[string]any{"case": map[string]any{
 		"plain": cs.Filter == "plain", "hok": herr == nil, "accept": accept, "pubok": cs.PubOK, "inRouter": cs.Router, "meta": c13Meta(cs.Meta), "errText": errText,
-		"ctxTopic": ct, "ctxHandler": ch, "ctxSub": csb, "topic": "poison-topic", "uuid": fmt.Sprintf("u%d", uid), "payload": "the payload",
+		"ctxTopic": ct, "ctxHandler": ch, "ctxSub": csb, "houts": map[bool]int{true: 2, false: 0}[cs.HRes == "ok2" || cs.HRes == "plain+outs"], "topic": "poison-topic", "uuid": fmt.Sprintf("u%d", uid), "payload": "the payload",
 	}})
 	r.Key = fmt.Sprintf("%+v", cs)
 	return r
@@ -197,12 +197,13 @@ func c13Run(r *tr.Run, cs c13Case) {
 	}
 	if !cs.Router {
 		var rerr error
-		p, v := Guarded(func() { _, rerr = mw(handler)(msg) })
+		var routs []*message.Message
+		p, v := Guarded(func() { routs, rerr = mw(handler)(msg) })
 		if p {
 			r.Emit("panic", "val", v)
 			return
 		}
-		r.Emit("ret", "r", classify(rerr))
+		r.Emit("ret", "r", classify(rerr), "outs", len(routs)) // what the handler returned next to its error passes through as well
 		r.Emit("end")
 		r.NonTrivial = herr != nil
 		return
